@@ -42,36 +42,77 @@ pub fn env_for(lane: &str, exe: &str) -> Vec<(String, String)> {
     v
 }
 
-/// Miri lane: run the tiny workload `part` under the interpreter; an interpreter error (undefined behaviour,
-/// data race) is a violation of `run.prop`; an unavailable toolchain is inconclusive for the lane.
+/// Miri lane: run the tiny workload `part` under the interpreter. An interpreter error (out-of-bounds, use after
+/// free, invalid value, uninitialised read, data race, aliasing violation in `/repo` code) is a violation of
+/// `run.prop`; an unavailable toolchain is inconclusive for the lane.
+///
+/// One class of report is *not* a verdict: a violation of the (experimental) Stacked Borrows aliasing model whose
+/// faulting frame lies in a third-party dependency outside `/repo` (observed: `istring::SmallBytes::from(&[u8])`
+/// keeps a raw pointer across a move of the `Box` it came from). None of the properties speaks about the aliasing
+/// discipline inside dependencies, and the interpreter stops at the first report, which would hide everything behind
+/// it. Such a report is recorded in `coverage.lanes` and the same workload is re-run under Tree Borrows, which then
+/// decides the lane.
 pub fn miri(run: &Run, part: &str, seeds: &[u64], many_seeds: Option<u32>) {
     let dir = harness_dir();
-    for &seed in seeds {
-        let t0 = std::time::Instant::now();
+    let exec = |extra: &str, seed: u64| {
         let mut flags = "-Zmiri-disable-isolation".to_string();
         if let Some(n) = many_seeds { flags.push_str(&format!(" -Zmiri-many-seeds=0..{}", n)); }
-        let out = Command::new("cargo").current_dir(&dir).args(["+nightly", "miri", "run", "--offline", "--bin", "miri_small", "--", part, &seed.to_string()])
-            .env("MIRIFLAGS", &flags).env("CARGO_NET_OFFLINE", "true").output();
+        if !extra.is_empty() { flags.push(' '); flags.push_str(extra); }
+        Command::new("cargo").current_dir(&dir).args(["+nightly", "miri", "run", "--offline", "--bin", "miri_small", "--", part, &seed.to_string()])
+            .env("MIRIFLAGS", &flags).env("CARGO_NET_OFFLINE", "true").output()
+    };
+    for &seed in seeds {
+        let t0 = std::time::Instant::now();
+        let mut model = "stacked-borrows";
+        let mut out = exec("", seed);
+        if let Ok(o) = &out {
+            let stderr = String::from_utf8_lossy(&o.stderr).to_string();
+            if let Some((l, loc)) = miri_error(&stderr) {
+                if l.contains("trying to retag") || l.contains("borrow stack") || stderr.contains("Stacked Borrows rules it violated are still experimental") {
+                    if !loc.contains("/repo/") {
+                        run.lane(json!({"lane": "miri", "part": part, "seed": seed, "model": "stacked-borrows", "aliasing_report_in_dependency": l, "at": loc,
+                            "treated_as": "not a verdict (aliasing model of a third-party crate); re-run under tree borrows"}));
+                        println!("note: miri: Stacked Borrows report inside a dependency ({}), re-running part {} under Tree Borrows", loc, part);
+                        run.add("miri_stacked_borrows_reports_in_dependencies", 1);
+                        model = "tree-borrows";
+                        out = exec("-Zmiri-tree-borrows", seed);
+                    }
+                }
+            }
+        }
         match out {
             Err(e) => { run.lane(json!({"lane": "miri", "part": part, "ran": false, "error": e.to_string()})); return; }
             Ok(o) => {
                 let stdout = String::from_utf8_lossy(&o.stdout).to_string();
                 let stderr = String::from_utf8_lossy(&o.stderr).to_string();
                 let oks = stdout.lines().filter(|l| l.starts_with("MIRI-OK")).count();
-                if let Some(l) = stderr.lines().find(|l| l.starts_with("error: Undefined Behavior") || l.starts_with("error: unsupported operation") && false || l.contains("Data race detected")) {
+                if let Some((l, loc)) = miri_error(&stderr) {
+                    if model == "tree-borrows" && !loc.contains("/repo/") && (l.contains("Tree Borrows") || stderr.contains("Tree Borrows rules it violated are still experimental")) {
+                        run.lane(json!({"lane": "miri", "part": part, "seed": seed, "model": model, "ran": false, "aliasing_report_in_dependency": l, "at": loc}));
+                        println!("note: miri lane for part {} stopped at an aliasing report inside a dependency under both models (inconclusive for that lane)", part);
+                        return;
+                    }
                     let first_repo_frame = stderr.lines().find(|x| x.contains("/repo/pdf/src") || x.contains("pdf/src/")).unwrap_or("").trim().to_string();
-                    let sig = format!("{}|miri|{}|{}", run.prop, part, crate::panicmon::template(l));
-                    run.violation(&sig, &format!("{} ; {}", l, first_repo_frame), json!({"part": part, "seed": seed, "stderr_tail": stderr.lines().rev().take(40).collect::<Vec<_>>()}));
+                    let sig = format!("{}|miri|{}|{}", run.prop, part, crate::panicmon::template(&l));
+                    run.violation(&sig, &format!("{} ; at {} ; {}", l, loc, first_repo_frame), json!({"part": part, "seed": seed, "model": model, "stderr_tail": stderr.lines().rev().take(40).collect::<Vec<_>>()}));
                 } else if !o.status.success() || oks == 0 {
                     run.lane(json!({"lane": "miri", "part": part, "seed": seed, "ran": false, "error": stderr.lines().rev().take(6).collect::<Vec<_>>()}));
                     println!("note: miri lane did not complete for part {} (inconclusive for that lane)", part);
                     return;
                 }
-                run.lane(json!({"lane": "miri", "part": part, "seed": seed, "ran": true, "ok_lines": oks, "wall_s": t0.elapsed().as_secs_f64()}));
+                run.lane(json!({"lane": "miri", "part": part, "seed": seed, "model": model, "ran": true, "ok_lines": oks, "wall_s": t0.elapsed().as_secs_f64()}));
                 run.add(&format!("miri_{}_runs", part), oks as u64);
             }
         }
     }
+}
+
+/// First interpreter error in Miri's stderr: (message line, source location of the faulting frame).
+fn miri_error(stderr: &str) -> Option<(String, String)> {
+    let lines: Vec<&str> = stderr.lines().collect();
+    let i = lines.iter().position(|l| l.starts_with("error: Undefined Behavior") || l.contains("Data race detected"))?;
+    let loc = lines[i..].iter().take(6).find(|l| l.trim_start().starts_with("-->")).map(|l| l.trim_start().trim_start_matches("-->").trim().to_string()).unwrap_or_default();
+    Some((lines[i].to_string(), loc))
 }
 
 /// libFuzzer lane for C01/C14: coverage-guided exploration of load + walker (built with ASan by cargo-fuzz).
